@@ -416,7 +416,7 @@ theorem faithful_refuted_unescaped_string_argument :
     accepts (.anyOf [.startsWith c!"a", .startsWith c!"b"]) (.str c!"a") ≠
       accepts (.startsWith c!"a\" or to start with \"b") (.str c!"a") := by decide
 
-/-- D32 (open finding, outside the universe above: needs an expected dict with a key that is not a `str`): `json.dumps` writes the
+/-- D33 (open finding, outside the universe above: needs an expected dict with a key that is not a `str`): `json.dumps` writes the
     keys `1`, `None`, `True` as `"1"`, `"null"`, `"true"`, so `equal_to({1: "a"})` reads exactly like `equal_to({"1": "a"})` and
     accepts other values. -/
 theorem faithful_refuted_dict_key_type :
